@@ -4,7 +4,7 @@
    draw_list_col(s), render), mirroring ListRowContainer / ListColumnContainer line by line. *)
 From Coq Require Import ZArith NArith List Permutation Sorted.
 From SL Require Import PyInt Widget TextWrap KeyPattern Containers
-     proofs.ContainersProofs proofs.ContainersLayout proofs.ContainersGeom.
+     proofs.WidgetProofs proofs.ContainersProofs proofs.ContainersLayout proofs.ContainersGeom proofs.ContainersCells proofs.ContainersFinal.
 Import ListNotations.
 
 (* ---------------------------------------------------------------- 1. row container: row-major *)
@@ -216,6 +216,90 @@ Theorem C13_item_inside_rect : forall cw x,
   end.
 Proof. exact item_inside_rect. Qed.
 
+(* cell level: in the rendered list every label and every item can be read in full at its place
+   (column k * (columns_width + spacing), row rowstart(r); the item right of its label): nothing
+   that is drawn later overwrites it.  [shows b src r0 c0] says that every cell (y, x) of src is the
+   cell (r0 + y, c0 + x) of b ([cell], [row_len]: proofs/WidgetProofs.v).  Same hypotheses as above. *)
+Theorem C13_shows_def : forall b src r0 c0,
+  shows b src r0 c0 <->
+  forall y x, y < length src -> x < row_len src y -> cell b (r0 + y) (c0 + x) = cell src y x.
+Proof. intros. reflexivity. Qed.
+
+Theorem C13_item_shown_def : forall rendered b i rp cp,
+  item_shown rendered b (i, (rp, cp)) <->
+  match nth i rendered ([], None) with
+  | (ib, Some (lb, lw)) => shows b lb rp cp /\ shows b ib rp (cp + lw)
+  | (ib, None) => shows b ib rp cp
+  end.
+Proof. intros. reflexivity. Qed.
+
+Theorem C13_cells_partial : forall kind columns items forced spacing kp w b,
+  (0 <= spacing)%Z ->
+  (forall it w' b', In it items -> (0 < w')%Z -> render_tree it w' = ROk b' -> (Z.of_nat (buf_width b') <= w')%Z) ->
+  (forall kp' i lb, kp = Some kp' -> label_buffer kp' i = ROk lb -> buf_width lb <= length (get_widget_label kp' i)) ->
+  render_tree (WList kind columns items forced spacing kp) w = ROk b ->
+  let cw := list_columns_width columns forced spacing w in
+  let omap := ordered_map kind (length items) (Z.to_nat columns) in
+  exists rendered,
+    render_all_items render_tree items 0 cw kp = ROk rendered /\
+    forall k r i, k < length omap -> nth_error (nth k omap []) r = Some i ->
+      item_shown rendered b
+        (i, (rowstart (lines_per_every_row omap (map item_height rendered)) r, k * Z.to_nat (cw + spacing))).
+Proof. exact render_list_cells. Qed.
+
+(* ---------------------------------------------------------------- 7. the hypotheses discharged *)
+(* With the width theorem of TextWidget.render (C11_width, proofs/TextWrapRender.v) the hypotheses of
+   the _partial theorems hold for every "plain" tree: texts, separators, centred widgets, list
+   containers without forced column width and with spacing >= 0, windows — nested in any way. *)
+Theorem C13_plain_tree_def : forall t, plain_tree t <-> fit_tree (fun _ => True) t.
+Proof. intros. reflexivity. Qed.
+
+(* every line of a plain tree rendered at w is at most w long: containers nested in containers *)
+Theorem C13_within_width : forall t w b,
+  plain_tree t -> (0 <= w)%Z -> render_tree t w = ROk b -> Forall (fun l : line => (Z.of_nat (length l) <= w)%Z) b.
+Proof. exact plain_tree_within_width. Qed.
+
+(* a list container (forced width or not) of plain items: width bound, layout, cells *)
+Theorem C13_width_bound : forall kind columns items forced spacing kp w b,
+  (0 <= spacing)%Z -> Forall plain_tree items ->
+  render_tree (WList kind columns items forced spacing kp) w = ROk b ->
+  b = [] \/
+  ((0 < list_columns_width columns forced spacing w)%Z /\
+   (Z.of_nat (buf_width b) <= columns * list_columns_width columns forced spacing w + (columns - 1) * spacing)%Z).
+Proof. exact plain_list_width_bound. Qed.
+
+Theorem C13_layout : forall kind columns items forced spacing kp w b,
+  (0 <= spacing)%Z -> Forall plain_tree items ->
+  render_tree (WList kind columns items forced spacing kp) w = ROk b ->
+  items <> [] ->
+  let cw := list_columns_width columns forced spacing w in
+  let omap := ordered_map kind (length items) (Z.to_nat columns) in
+  exists rendered,
+    render_all_items render_tree items 0 cw kp = ROk rendered /\
+    Forall (item_fits (Z.to_nat cw)) rendered /\
+    b = fold_left (draw_item rendered)
+          (all_placements omap (lines_per_every_row omap (map item_height rendered)) 0 (Z.to_nat (cw + spacing))) [].
+Proof. exact plain_list_closed_form. Qed.
+
+Theorem C13_cells : forall kind columns items forced spacing kp w b,
+  (0 <= spacing)%Z -> Forall plain_tree items ->
+  render_tree (WList kind columns items forced spacing kp) w = ROk b ->
+  let cw := list_columns_width columns forced spacing w in
+  let omap := ordered_map kind (length items) (Z.to_nat columns) in
+  exists rendered,
+    render_all_items render_tree items 0 cw kp = ROk rendered /\
+    forall k r i, k < length omap -> nth_error (nth k omap []) r = Some i ->
+      item_shown rendered b
+        (i, (rowstart (lines_per_every_row omap (map item_height rendered)) r, k * Z.to_nat (cw + spacing))).
+Proof. exact plain_list_cells. Qed.
+
+(* refusal, total for text items: numbering on and SOME label leaves no room => ValueError *)
+Theorem C13_refused_label_texts : forall kind columns ts forced spacing kp' w i,
+  (0 < columns)%Z -> i < length ts ->
+  (list_columns_width columns forced spacing w - Z.of_nat (length (get_widget_label kp' i)) <= 0)%Z ->
+  render_tree (WList kind columns (map WText ts) forced spacing (Some kp')) w = RValueError.
+Proof. exact text_list_refused. Qed.
+
 (* ---------------------------------------------------------------- non-vacuity *)
 Local Open Scope N_scope.
 Example C13_example :
@@ -234,6 +318,15 @@ Example C13_example :
   render_tree (WList KRow 2%Z items None 2%Z (Some default_pattern)) 9%Z = RValueError /\
   lines_per_every_row (ordered_map_row 5 2) [2;1;1;3;1]%nat = [2;3;1]%nat.
 Proof. vm_compute. repeat split. Qed.
+
+(* the hypotheses of C13_within_width are satisfiable: a list in a list in a window is a plain tree *)
+Example C13_example_plain :
+  let t := fun s => WText (simple_text s) in
+  let inner := WList KCol 2%Z [t [97;97]; t [98]; t [99;99;99]] None 1%Z (Some default_pattern) in
+  plain_tree (WWindow (Some (simple_text [84])) [WList KRow 2%Z [inner; t [100]] None 3%Z None; WCenter inner; WSep 1]).
+Proof.
+  unfold plain_tree. repeat (constructor; try exact I; try (intros; exact I); try (vm_compute; discriminate)).
+Qed.
 
 Print Assumptions C13_order_row_columns.
 Print Assumptions C13_order_row.
@@ -267,3 +360,12 @@ Print Assumptions C13_placements.
 Print Assumptions C13_rowstart.
 Print Assumptions C13_no_overlap.
 Print Assumptions C13_item_inside_rect.
+Print Assumptions C13_shows_def.
+Print Assumptions C13_item_shown_def.
+Print Assumptions C13_cells_partial.
+Print Assumptions C13_plain_tree_def.
+Print Assumptions C13_within_width.
+Print Assumptions C13_width_bound.
+Print Assumptions C13_layout.
+Print Assumptions C13_cells.
+Print Assumptions C13_refused_label_texts.
